@@ -1,7 +1,7 @@
 """Term normalisation: canonical keys, conjunct sets with definition expansion, supports, linear forms."""
 from fractions import Fraction
 
-from .values import Const, Sym, Op, Obj, ListV, DictV, Comp, V
+from .values import Const, Sym, Op, Obj, ListV, DictV, Comp, V, MAX_TREE, TooBig
 
 AC = {"&", "|", "^", "+", "*", "and", "or"}
 
@@ -58,6 +58,8 @@ def literal(t):
 def key(t):
     """Canonical, order-insensitive string of a term."""
     if isinstance(t, Op):
+        if t.tsize() > MAX_TREE:
+            raise TooBig("a term of %d nodes when written out as a tree (limit %d): the analyser does not print or compare it" % (t.tsize(), MAX_TREE))
         if t.op in ("~", "not") or _split_cmp0(t) is not None:
             a, p = literal(t)
             return key(a) if p else "~" + key(a)
